@@ -30,11 +30,11 @@ func init() {
 		ID:    "C07",
 		Title: "Contacts follow the documented lifecycle; illegal transitions are refused",
 		Explanation: "Decided by abstract evaluation of the SSA of /repo over finite domains, compared with the reference tables of DESIGN.md appendix A (kept in the checker by exported enum constant names). " +
-			"(D1) guard table: each of the seven exported MetadataStore contact operations is evaluated for each of the seven ContactState values (the function that returns the ContactState of a key is answered by an oracle; the account group, a well-formed contact and a foreign key are assumed; delegation enqueue/receive -> mark-sent is evaluated by inlining with the same state). A cell is 'refused' when no path seals an event or reaches the log append (basestore AddOperation) and every return carries a non-nil error; it is 'appends E' when a path reaches the append with the constant event type E, no path seals another type or appends twice, and no path returns a possibly-nil error without having sealed or appended anything. The 7x7 table must equal A.1, and the state must be read for the key of the contact operated on. " +
+			"(D1) guard table: each of the seven exported MetadataStore contact operations is evaluated for each of the seven ContactState values (the function that returns the ContactState of a key is answered by an oracle; the account group, a well-formed contact and a foreign key are assumed; delegation enqueue/receive -> mark-sent is evaluated by inlining with the same state). A cell is 'refused' when no path seals an event or reaches the log append (basestore AddOperation) and every return carries a non-nil error; it is 'appends E' when a path reaches the append with the constant event type E, no path seals another type or appends twice, and no path returns a possibly-nil error without having sealed or appended anything. The 7x7 table must equal A.1, and the state must be read for the key of the contact operated on. Guards expressed as data are followed: struct values, and package-level maps of the store package initialised with a literal with constant keys that nothing else writes (no other store to the variable, no map update / delete on a map of that type outside the initialiser), including the miss path of a comma-ok lookup. " +
 			"(D2) preconditions: on any other group type; with the account's own key (enqueue, receive, block; state Undefined, the only state an own key can have); with a short, long or missing seed, a missing key or a key that does not parse (enqueue, receive; a missing seed is legal for receive only, which must then follow the same table) nothing is sealed or appended and no nil error is returned, in every state; the seven contact event types are handed to functions taking an event type only inside the seven operations (no unguarded entry point). " +
-			"(D3) event->state table: the single handler registered in the index for each contact event type is evaluated with abstract maps. On an index without the subject it stores, under the event's contact key, in the map the state reader reads, a new record whose state is the constant of A.2 and whose key/seed/metadata are the event's (nil where the event carries none), on EVERY returning path of a well-formed event (right message type, sub-messages present, 32-byte key) whether or not a secondary step (group look-up, by-group registration) fails, and does not delete it again; on an index where the subject exists (4 combinations of nil/non-nil Metadata and PublicRendezvousSeed) it inserts nothing never deletes from that map (delete(...) leaves a tombstone in the abstract map; entries are only dropped by the reset at the start of a re-index) and leaves state, key, seed and metadata unchanged, except that the enqueued/received handlers fill Metadata and PublicRendezvousSeed from the event when, and only when, they are nil. " +
+			"(D3) event->state table: the single handler registered in the index for each contact event type is evaluated with abstract maps (the maps of the index struct, also those promoted from embedded / nested structs). On an index without the subject it stores, under the event's contact key, in the map the state reader reads, a new record whose state is the constant of A.2 and whose key/seed/metadata are the event's (nil where the event carries none), on EVERY returning path of a well-formed event (right message type, sub-messages present, 32-byte key) whether or not a secondary step (group look-up, by-group registration) fails, and does not delete it again; on an index where the subject exists (4 combinations of nil/non-nil Metadata and PublicRendezvousSeed) it inserts nothing never deletes from that map (delete(...) leaves a tombstone in the abstract map; entries are only dropped by the reset at the start of a re-index) and leaves state, key, seed and metadata unchanged, except that the enqueued/received handlers fill Metadata and PublicRendezvousSeed from the event when, and only when, they are nil. " +
 			"(D4) ShareableContact.CheckFormat decision table over seed length {0,31,32,33} x key {missing, valid, unparsable} x the four option sets equals A.3. " +
-			"(D7) the loop of the index's UpdateIndex that hands the log entries to the event handlers (handlers = dynamic calls of the element type of the handler table, in the loop or in a function called from it) is left only at the end of the sequence (an exit decided by the loop's own counters/bounds or a range iterator) or towards returns of a non-nil error: a break / return nil / goto out of the per-entry body makes the state depend on a prefix of the scan (this is a necessary condition of C04 too and is phrased on the index type only, so C04 can borrow C07.D7). " +
+			"(D7) the loop of the index's UpdateIndex that hands the log entries to the event handlers (handlers = dynamic calls of a function whose type has the underlying signature of the handler table's elements, in the loop, in a function called from it, or in a closure handed to an iterator: for a range-over-func / visitor body every return must be `true`, i.e. continue) is left only at the end of the sequence (an exit decided by the loop's own counters/bounds or a range iterator) or towards returns of a non-nil error: a break / return nil / goto out of the per-entry body makes the state depend on a prefix of the scan (this is a necessary condition of C04 too and is phrased on the index type only, so C04 can borrow C07.D7). " +
 			"(D8) at every call of one of the seven operations (RPC handlers of the service, the contact-request protocol, delegations inside the store) the caller has an error result and fails whenever the operation fails: the operation's error verdict is tested and its failing side reaches only returns of a non-nil error, or the verdict is returned (also through a named result cell that is only overwritten by non-nil errors); a shadowed variable that is not the one returned does not count. " +
 			"(D5) the event appended by each operation carries the contact's key (and for enqueue/receive the contact's seed and metadata, for enqueue the caller's own metadata) in the right fields. " +
 			"(D6) the function that reads the current state of a key answers Undefined for a key the index has no record for (and for a nil key) and the stored state otherwise. " +
@@ -214,6 +214,17 @@ func c07IsAppendKey(key string) bool {
 type c07Map struct{ ID int }
 type c07Absent struct{}
 
+// c07Struct is an (immutable) struct value: field path (".err", ".inner.x") -> value; a field
+// that is not listed has its zero value.
+type c07Struct struct{ F map[string]AVal }
+
+func c07ZeroOf(t types.Type) AVal {
+	if _, ok := t.Underlying().(*types.Struct); ok {
+		return c07Struct{F: map[string]AVal{}}
+	}
+	return zeroOf(t)
+}
+
 type c07Interp struct {
 	ev *Evaluator
 }
@@ -351,7 +362,24 @@ func (x *c07Interp) runBlock(fr *frame, b *ssa.BasicBlock, pred *ssa.BasicBlock,
 			case *ssa.Defer:
 				ev.record(fr, v, "defer", st)
 			case *ssa.Store:
-				ev.store(fr, st, v.Addr, ev.val(fr, v.Val))
+				val := ev.val(fr, v.Val)
+				if sv, ok := val.(c07Struct); ok {
+					// a struct value written to memory: one slot per field
+					if p, ok := ev.val(fr, v.Addr).(aPtr); ok && p.ID != -1 {
+						if o := st.heap[p.ID]; o != nil {
+							for slot := range o.Slots {
+								if strings.HasPrefix(slot, p.Path+".") {
+									delete(o.Slots, slot)
+								}
+							}
+							for f, fv := range sv.F {
+								o.Slots[p.Path+f] = fv
+							}
+						}
+					}
+					break
+				}
+				ev.store(fr, st, v.Addr, val)
 			case *ssa.MapUpdate:
 				if mv, ok := ev.val(fr, v.Map).(c07Map); ok {
 					if o := st.heap[mv.ID]; o != nil {
@@ -382,6 +410,41 @@ func (x *c07Interp) evalInstr(fr *frame, st *pstate, v ssa.Value) AVal {
 	switch in := v.(type) {
 	case *ssa.MakeMap:
 		return x.newMap(st, c07Absent{})
+	case *ssa.UnOp:
+		// load of a whole struct from non-symbolic memory
+		if in.Op == token.MUL {
+			if _, isStruct := in.Type().Underlying().(*types.Struct); isStruct {
+				if p, ok := ev.val(fr, in.X).(aPtr); ok && p.ID != -1 {
+					if o := st.heap[p.ID]; o != nil && o.Sym == "" {
+						sv := c07Struct{F: map[string]AVal{}}
+						for slot, fv := range o.Slots {
+							if strings.HasPrefix(slot, p.Path+".") {
+								sv.F[strings.TrimPrefix(slot, p.Path)] = fv
+							}
+						}
+						return sv
+					}
+				}
+			}
+		}
+	case *ssa.Field:
+		if sv, ok := ev.val(fr, in.X).(c07Struct); ok {
+			stt := in.X.Type().Underlying().(*types.Struct)
+			name := "." + stt.Field(in.Field).Name()
+			if _, nested := in.Type().Underlying().(*types.Struct); nested {
+				sub := c07Struct{F: map[string]AVal{}}
+				for f, fv := range sv.F {
+					if strings.HasPrefix(f, name+".") {
+						sub.F[strings.TrimPrefix(f, name)] = fv
+					}
+				}
+				return sub
+			}
+			if fv, has := sv.F[name]; has {
+				return fv
+			}
+			return zeroOf(in.Type())
+		}
 	case *ssa.Convert:
 		// string(b) / []byte(s) keep the identity of a symbolic byte string
 		src := ev.val(fr, in.X)
@@ -414,7 +477,7 @@ func (x *c07Interp) evalInstr(fr *frame, st *pstate, v ssa.Value) AVal {
 			if key := c07MapKey(ev.val(fr, in.Index)); key != "" {
 				if e, has := o.Slots["k:"+key]; has {
 					if _, gone := e.(c07Absent); gone {
-						val, present, known = zeroOf(mt.Elem()), c07MkBool(false), true
+						val, present, known = c07ZeroOf(mt.Elem()), c07MkBool(false), true
 					} else {
 						val, present, known = e, c07MkBool(true), true
 					}
@@ -424,7 +487,7 @@ func (x *c07Interp) evalInstr(fr *frame, st *pstate, v ssa.Value) AVal {
 				if def, has := o.Slots["#default"]; has {
 					known = true
 					if _, abs := def.(c07Absent); abs {
-						val, present = zeroOf(mt.Elem()), c07MkBool(false)
+						val, present = c07ZeroOf(mt.Elem()), c07MkBool(false)
 					} else {
 						val, present = def, c07MkBool(true)
 					}
@@ -761,6 +824,177 @@ func (e *c07Env) keyOracle(ev *Evaluator, st *pstate, k string, cc *ssa.CallComm
 }
 
 // ---------------------------------------------------------------------------
+// package-level map literals (guards expressed as data)
+
+// c07StaticVal: the value of v when it is built from constants only (package initialiser).
+func c07StaticVal(v ssa.Value, depth int) AVal {
+	if depth > 5 || v == nil {
+		return nil
+	}
+	switch x := v.(type) {
+	case *ssa.Const:
+		if x.Value == nil {
+			if _, isStruct := x.Type().Underlying().(*types.Struct); isStruct {
+				return c07Struct{F: map[string]AVal{}}
+			}
+			return zeroOf(x.Type())
+		}
+		return aConst{V: x.Value, T: x.Type()}
+	case *ssa.MakeInterface:
+		return aIface{V: c07StaticVal(x.X, depth+1), T: x.X.Type()}
+	case *ssa.ChangeType:
+		return c07StaticVal(x.X, depth+1)
+	case *ssa.ChangeInterface:
+		return c07StaticVal(x.X, depth+1)
+	case *ssa.Function:
+		return aFunc{Fn: x}
+	case *ssa.UnOp:
+		al, ok := x.X.(*ssa.Alloc)
+		if x.Op != token.MUL || !ok || al.Referrers() == nil {
+			return nil
+		}
+		if _, isStruct := x.Type().Underlying().(*types.Struct); !isStruct {
+			return nil
+		}
+		sv := c07Struct{F: map[string]AVal{}}
+		stt := x.Type().Underlying().(*types.Struct)
+		for _, r := range *al.Referrers() {
+			switch u := r.(type) {
+			case *ssa.FieldAddr:
+				name := "." + stt.Field(u.Field).Name()
+				if u.Referrers() == nil {
+					continue
+				}
+				n := 0
+				for _, r2 := range *u.Referrers() {
+					switch s2 := r2.(type) {
+					case *ssa.Store:
+						if s2.Addr != ssa.Value(u) {
+							return nil
+						}
+						n++
+						fv := c07StaticVal(s2.Val, depth+1)
+						if sub, isSub := fv.(c07Struct); isSub {
+							for f, v2 := range sub.F {
+								sv.F[name+f] = v2
+							}
+						} else {
+							sv.F[name] = fv
+						}
+					case *ssa.DebugRef:
+					default:
+						return nil
+					}
+				}
+				if n > 1 {
+					return nil
+				}
+			case *ssa.UnOp, *ssa.DebugRef:
+			default:
+				return nil // the address escapes
+			}
+		}
+		return sv
+	}
+	return nil
+}
+
+// staticMaps: package-level maps of the store package that are initialised with a literal
+// whose keys are constants and that nothing else can modify (no other store to the variable,
+// no map update or delete on a map of that type outside the initialiser). Global name ->
+// (map key -> value).
+func (e *c07Env) staticMaps() map[string]map[string]AVal {
+	if v, ok := e.w.memo["c07.staticmaps"]; ok {
+		return v.(map[string]map[string]AVal)
+	}
+	out := map[string]map[string]AVal{}
+	e.w.memo["c07.staticmaps"] = out
+	sp := e.w.pkg(pkgRoot)
+	if sp == nil {
+		return out
+	}
+	initFn := sp.Func("init")
+	if initFn == nil {
+		return out
+	}
+	type cand struct {
+		g  *ssa.Global
+		mm *ssa.MakeMap
+		st *ssa.Store
+	}
+	var cands []cand
+	for _, b := range initFn.Blocks {
+		for _, in := range b.Instrs {
+			st, ok := in.(*ssa.Store)
+			if !ok {
+				continue
+			}
+			g, ok1 := st.Addr.(*ssa.Global)
+			mm, ok2 := st.Val.(*ssa.MakeMap)
+			if ok1 && ok2 {
+				cands = append(cands, cand{g, mm, st})
+			}
+		}
+	}
+	for _, cd := range cands {
+		entries := map[string]AVal{}
+		okAll := cd.mm.Referrers() != nil
+		if okAll {
+			for _, r := range *cd.mm.Referrers() {
+				switch u := r.(type) {
+				case *ssa.MapUpdate:
+					k, isC := u.Key.(*ssa.Const)
+					if !isC || k.Value == nil || u.Map != ssa.Value(cd.mm) {
+						okAll = false
+						break
+					}
+					entries["c:"+k.Value.ExactString()] = c07StaticVal(u.Value, 0)
+				case *ssa.Store:
+					if u != cd.st {
+						okAll = false
+					}
+				case *ssa.DebugRef:
+				default:
+					okAll = false
+				}
+			}
+		}
+		if !okAll {
+			continue
+		}
+		// nothing else writes the variable or a map of that type
+		mt := cd.mm.Type()
+		for _, fn := range e.w.ModFuncs {
+			if !okAll {
+				break
+			}
+			for _, b := range fn.Blocks {
+				for _, in := range b.Instrs {
+					switch u := in.(type) {
+					case *ssa.Store:
+						if u.Addr == ssa.Value(cd.g) && u != cd.st {
+							okAll = false
+						}
+					case *ssa.MapUpdate:
+						if fn != initFn && types.Identical(u.Map.Type(), mt) {
+							okAll = false
+						}
+					case *ssa.Call:
+						if bi, isB := u.Common().Value.(*ssa.Builtin); isB && (bi.Name() == "delete" || bi.Name() == "clear") && len(u.Common().Args) > 0 && types.Identical(u.Common().Args[0].Type(), mt) {
+							okAll = false
+						}
+					}
+				}
+			}
+		}
+		if okAll {
+			out[cd.g.String()] = entries
+		}
+	}
+	return out
+}
+
+// ---------------------------------------------------------------------------
 // D1 / D2 / D5: the operations
 
 type c07OpScenario struct {
@@ -835,10 +1069,14 @@ func (e *c07Env) evalOp(op *c07Op, sc c07OpScenario) c07OpResult {
 	if sc.Own {
 		subject = c07OwnTag
 	}
+	globals := map[string]c07Map{}
 	cfg := EvalConfig{
 		MaxDepth:  12,
 		MaxVisits: 12,
 		Field: func(path string, t types.Type) (AVal, bool) {
+			if m, ok := globals[path]; ok {
+				return m, true
+			}
 			switch {
 			case types.Identical(t, e.groupT):
 				return c07MkInt(sc.GroupType, t), true
@@ -892,6 +1130,15 @@ func (e *c07Env) evalOp(op *c07Op, sc c07OpScenario) c07OpResult {
 		},
 	}
 	x := &c07Interp{ev: &Evaluator{W: e.w, Cfg: cfg}}
+	// package-level map literals the guards may be expressed with
+	x.ev.st0 = &pstate{heap: map[int]*aObj{}}
+	for name, entries := range e.staticMaps() {
+		m := x.newMap(x.ev.st0, c07Absent{})
+		for k, v := range entries {
+			x.ev.st0.heap[m.ID].Slots["k:"+k] = v
+		}
+		globals[name] = m
+	}
 	args := x.ev.SymbolicArgs(op.Fn)
 	errIdx := errResultIndex(op.Fn.Signature)
 	for _, o := range x.Eval(op.Fn, args) {
@@ -1517,6 +1764,67 @@ func c07FuncsIn(v ssa.Value, depth int) []*ssa.Function {
 	return nil
 }
 
+// c07MapField is a map-typed field of the index struct, possibly inside embedded / nested
+// structs; Path is the dotted access path from the index object ("rescan.contacts").
+type c07MapField struct {
+	Path string
+	Type types.Type
+}
+
+func c07MapFieldsOf(st *types.Struct, prefix string, depth int, out *[]c07MapField) {
+	if depth > 3 {
+		return
+	}
+	for i := 0; i < st.NumFields(); i++ {
+		f := st.Field(i)
+		switch u := f.Type().Underlying().(type) {
+		case *types.Map:
+			*out = append(*out, c07MapField{Path: prefix + f.Name(), Type: f.Type()})
+		case *types.Struct:
+			c07MapFieldsOf(u, prefix+f.Name()+".", depth+1, out)
+		case *types.Pointer:
+			if f.Embedded() {
+				if ps, ok := u.Elem().Underlying().(*types.Struct); ok {
+					c07MapFieldsOf(ps, prefix+f.Name()+".", depth+1, out)
+				}
+			}
+		}
+	}
+}
+
+// c07FieldPathFrom: v is the address of a (possibly promoted) field reached from a pointer to
+// the struct idx through a chain of field addresses (and loads of embedded pointers); returns
+// the dotted path.
+func c07FieldPathFrom(v ssa.Value, idx *types.Struct) (string, bool) {
+	path := ""
+	for i := 0; i < 6; i++ {
+		switch x := v.(type) {
+		case *ssa.FieldAddr:
+			st, ok := x.X.Type().Underlying().(*types.Pointer).Elem().Underlying().(*types.Struct)
+			if !ok {
+				return "", false
+			}
+			if path == "" {
+				path = st.Field(x.Field).Name()
+			} else {
+				path = st.Field(x.Field).Name() + "." + path
+			}
+			if types.Identical(st, idx) {
+				return path, true
+			}
+			v = x.X
+		case *ssa.UnOp:
+			if x.Op != token.MUL {
+				return "", false
+			}
+			v = x.X
+		default:
+			return "", false
+		}
+	}
+	return "", false
+}
+
 // stateMapFields: the fields of the index struct holding the map the state reader looks the
 // contact up in (the map the reported state comes from).
 func (e *c07Env) stateMapFields(idx *types.Struct) map[string]bool {
@@ -1539,16 +1847,11 @@ func (e *c07Env) stateMapFields(idx *types.Struct) map[string]bool {
 				if !ok || ld.Op != token.MUL {
 					continue
 				}
-				fa, ok := ld.X.(*ssa.FieldAddr)
-				if !ok {
+				if c07RecordOf(l.X.Type(), e.stateT) == nil {
 					continue
 				}
-				st, ok := fa.X.Type().Underlying().(*types.Pointer).Elem().Underlying().(*types.Struct)
-				if !ok || !types.Identical(st, idx) {
-					continue
-				}
-				if c07RecordOf(st.Field(fa.Field).Type(), e.stateT) != nil {
-					out[st.Field(fa.Field).Name()] = true
+				if path, ok := c07FieldPathFrom(ld.X, idx); ok {
+					out[path] = true
 				}
 			}
 		}
@@ -1638,13 +1941,11 @@ func (e *c07Env) evalHandler(h c07Handler, idxStruct *types.Struct, stateFields 
 	st0 := ev.st0
 	// the pre-existing record
 	var recT *types.Struct
-	for i := 0; i < idxStruct.NumFields(); i++ {
-		f := idxStruct.Field(i)
-		if _, isMap := f.Type().Underlying().(*types.Map); !isMap {
-			continue
-		}
-		if stateFields[f.Name()] {
-			recT = c07RecordOf(f.Type(), e.stateT)
+	var mapFields []c07MapField
+	c07MapFieldsOf(idxStruct, "", 0, &mapFields)
+	for _, f := range mapFields {
+		if stateFields[f.Path] {
+			recT = c07RecordOf(f.Type, e.stateT)
 		}
 	}
 	if recT == nil {
@@ -1677,22 +1978,18 @@ func (e *c07Env) evalHandler(h c07Handler, idxStruct *types.Struct, stateFields 
 		recObj.Slots["."+contactField] = aPtr{ID: conObj.ID}
 	}
 	stateMapIDs := map[int]string{}
-	for i := 0; i < idxStruct.NumFields(); i++ {
-		f := idxStruct.Field(i)
-		if _, isMap := f.Type().Underlying().(*types.Map); !isMap {
-			continue
-		}
+	for _, f := range mapFields {
 		var def AVal = c07Absent{}
 		if sc.Present {
 			def = nil // other maps: unknown content
-			if stateFields[f.Name()] {
+			if stateFields[f.Path] {
 				def = aPtr{ID: recObj.ID}
 			}
 		}
 		m := x.newMap(st0, def)
-		maps[recvName+"."+f.Name()] = m
-		if stateFields[f.Name()] {
-			stateMapIDs[m.ID] = f.Name()
+		maps[recvName+"."+f.Path] = m
+		if stateFields[f.Path] {
+			stateMapIDs[m.ID] = f.Path
 		}
 	}
 	recv := aPtr{ID: ev.newObj(st0, recvName).ID, Sym: true}
@@ -2005,10 +2302,12 @@ func (e *c07Env) runD6(idxPtr types.Type) {
 	}
 	var recT *types.Struct
 	stateMapName := ""
-	for i := 0; i < ist.NumFields(); i++ {
-		if stateFields[ist.Field(i).Name()] {
-			recT = c07RecordOf(ist.Field(i).Type(), e.stateT)
-			stateMapName = ist.Field(i).Name()
+	var mapFields []c07MapField
+	c07MapFieldsOf(ist, "", 0, &mapFields)
+	for _, f := range mapFields {
+		if stateFields[f.Path] {
+			recT = c07RecordOf(f.Type, e.stateT)
+			stateMapName = f.Path
 		}
 	}
 	stateField := ""
@@ -2301,6 +2600,10 @@ func (e *c07Env) runD7(idxPtr types.Type) {
 		}
 	}
 	var sites []ssa.Instruction
+	// yield: closures of UpdateIndex that are handed to an iterator / visitor and contain the
+	// dispatch (range-over-func: the loop body is such a closure, `continue` = return true,
+	// `break` / leaving the loop = return false)
+	var yields []*ssa.Function
 	for _, b := range upd.Blocks {
 		for _, in := range b.Instrs {
 			call, ok := in.(*ssa.Call)
@@ -2309,8 +2612,19 @@ func (e *c07Env) runD7(idxPtr types.Type) {
 			}
 			if isDispatch(call) {
 				sites = append(sites, call)
-			} else if f := staticCallee(call.Common()); f != nil && f != upd && leads[f] {
+				continue
+			}
+			if f := staticCallee(call.Common()); f != nil && f != upd && leads[f] {
 				sites = append(sites, call)
+				continue
+			}
+			for _, a := range call.Common().Args {
+				if mc, ok := a.(*ssa.MakeClosure); ok {
+					if f, ok := mc.Fn.(*ssa.Function); ok && f.Parent() == upd && leads[f] {
+						sites = append(sites, call)
+						yields = append(yields, f)
+					}
+				}
 			}
 		}
 	}
@@ -2327,15 +2641,57 @@ func (e *c07Env) runD7(idxPtr types.Type) {
 			}
 		}
 	}
-	if outer == nil {
+	if outer == nil && len(yields) == 0 {
 		c.undecided("D7", un+"+entry-loop", upd.Pos(), "%s calls the event handlers outside any loop: the walk over the log entries was not found", un)
 		return
 	}
 	var bad []string
 	exits := 0
 	pos := posOf(sites[0])
+	// per-entry body given as a function to an iterator: every return asks for the next entry
+	for _, y := range yields {
+		res := y.Signature.Results()
+		if res.Len() != 1 || !isBoolType(res.At(0).Type()) {
+			continue // a visitor without stop signal: returning is `continue`
+		}
+		for _, r := range returnsOf(y) {
+			exits++
+			var goesOn func(v ssa.Value, d int) bool
+			goesOn = func(v ssa.Value, d int) bool {
+				if b, ok := constBool(v); ok {
+					return b
+				}
+				if ph, ok := v.(*ssa.Phi); ok && d < 4 {
+					for _, ed := range ph.Edges {
+						if !goesOn(ed, d+1) {
+							return false
+						}
+					}
+					return len(ph.Edges) > 0
+				}
+				return false
+			}
+			if goesOn(r.Results[0], 0) {
+				continue
+			}
+			// stopping is fine when a non-nil error is handed to the enclosing function's result
+			errOut := false
+			for _, in := range r.Block().Instrs {
+				if st, ok := in.(*ssa.Store); ok {
+					if _, isFV := st.Addr.(*ssa.FreeVar); isFV && isErrorType(st.Val.Type()) && definitelyNonNilErr(st.Val, r.Block(), 0) {
+						errOut = true
+					}
+				}
+			}
+			if errOut {
+				continue
+			}
+			pos = posOf(r)
+			bad = append(bad, c.pos(posOf(r)))
+		}
+	}
 	for _, u := range upd.Blocks {
-		if !outer.Body[u] {
+		if outer == nil || !outer.Body[u] {
 			continue
 		}
 		for _, v := range u.Succs {
